@@ -134,7 +134,7 @@ fuzz_target!(|data: &[u8]| {
     match lab::expand(&text, &cfgs) {
         lab::Class::Panic(m) => finding("panic", &m, cfg, &text),
         lab::Class::BadOutput(m) => finding("badoutput", &m, cfg, &text),
-        lab::Class::Reject(m) => {
+        lab::Class::Reject(m, _) => {
             if m.trim().is_empty() {
                 finding("emptymsg", "rejected with an empty message", cfg, &text)
             }
